@@ -7,8 +7,9 @@ import (
 )
 
 // Hooks for the external verification harness (/verif). This file only
-// exists when building with the "verif" build tag and only adds
-// read-only probes; it does not alter any behaviour.
+// exists when building with the "verif" build tag. It adds read-only
+// probes and, at the end, two setters for sequence counters; none of it
+// alters the behaviour of the code above it.
 
 // VerifStateCounts returns the number of records of every kind that an
 // NFSv4.0 or NFSv4.1 program currently retains. The second result is
@@ -106,4 +107,86 @@ func (ofp *OpenedFilesPool) VerifUseCount() (total int, ok bool) {
 		of.locksLock.Unlock()
 	}
 	return total, true
+}
+
+// VerifClientLocksFree reports whether the lock of every NFSv4.1 client
+// incarnation can be acquired without blocking. Unlike VerifStateCounts
+// it also probes incarnations that are currently held by requests
+// (without looking at their maps). At quiescence of the harness no
+// request is inside such a lock, so false means that it was leaked.
+func VerifClientLocksFree(program nfsv4.Nfs4Program) bool {
+	p, ok := program.(*nfs41Program)
+	if !ok {
+		return true
+	}
+	if !p.clientsLock.TryLock() {
+		return false
+	}
+	defer p.clientsLock.Unlock()
+	for _, cis := range p.clientIncarnationsByClientID {
+		if !cis.lock.TryLock() {
+			return false
+		}
+		cis.lock.Unlock()
+	}
+	return true
+}
+
+// The following two hooks are the only ones that modify state. They let
+// the harness place a counter just below its wrap-around point, which a
+// client could otherwise only reach by sending 2^32 requests. They do
+// what that many well-formed requests would have done to the counter and
+// nothing else.
+
+// VerifSetSlotSequenceID sets the sequence ID that an idle slot of an
+// NFSv4.1 session has processed last, discarding the cached reply. It
+// returns false if the session or slot does not exist or the slot is
+// processing a request.
+func VerifSetSlotSequenceID(program nfsv4.Nfs4Program, sessionID nfsv4.Sessionid4, slotID uint32, lastSequenceID uint32) bool {
+	p, ok := program.(*nfs41Program)
+	if !ok {
+		return false
+	}
+	if !p.clientsLock.TryLock() {
+		return false
+	}
+	defer p.clientsLock.Unlock()
+	session, ok := p.sessionsBySessionID[sessionID]
+	if !ok || slotID >= uint32(len(session.slots)) {
+		return false
+	}
+	slot := &session.slots[slotID]
+	if slot.currentSequenceWaiters != nil {
+		return false
+	}
+	slot.lastSequenceID = lastSequenceID
+	slot.lastResult = sequenceCompoundResultSeqMisordered
+	return true
+}
+
+// VerifSetStateIDSeqID sets the seqid of the open or lock state ID with
+// the given "other" value of an NFSv4.1 client incarnation that is not
+// held by any request. It returns false if no such state ID exists.
+func VerifSetStateIDSeqID(program nfsv4.Nfs4Program, clientID uint64, other uint64, seqID uint32) bool {
+	p, ok := program.(*nfs41Program)
+	if !ok {
+		return false
+	}
+	if !p.clientsLock.TryLock() {
+		return false
+	}
+	defer p.clientsLock.Unlock()
+	cis, ok := p.clientIncarnationsByClientID[clientID]
+	if !ok || cis.holdCount != 0 {
+		return false
+	}
+	if oofs, ok := cis.openOwnerFilesByOther[other]; ok {
+		oofs.stateID.seqID = seqID
+		return true
+	}
+	if lofs, ok := cis.lockOwnerFilesByOther[other]; ok {
+		lofs.stateID.seqID = seqID
+		return true
+	}
+	return false
 }
